@@ -21,9 +21,9 @@ impl Tier {
     }
 }
 
-pub const NAMES: [&str; 23] = [
+pub const NAMES: [&str; 24] = [
     "c10map", "base", "c01", "c02", "c03", "c04", "c05", "c06", "c07", "c08", "c09", "c10", "c11", "c12",
-    "c13", "c14", "c14inc", "c15", "c16", "c17", "c18", "c19", "c20",
+    "c13", "c14", "c14inc", "c14first", "c15", "c16", "c17", "c18", "c19", "c20",
 ];
 
 fn all_metrics() -> Vec<(u32, Metric)> {
@@ -78,6 +78,7 @@ pub fn base(tier: Tier) -> Profile {
         id_styles: vec![(5, IdStyle::Dense), (2, IdStyle::Sparse), (2, IdStyle::Boundary)],
         p_id_mix: 0.1,
         dense_span_factor: 1.5,
+        dense_offset: 0,
         families: vec![
             (8, Family::Generic),
             (2, Family::Duplicates),
@@ -487,6 +488,38 @@ pub fn profile(name: &str, tier: Tier) -> Option<Profile> {
             p.queries = Range(0, 1);
             p.read_rate = 0.0;
             p.families = vec![(6, Family::Generic), (1, Family::Duplicates), (1, Family::Ternary)];
+        }
+        // the memory hint on FIRST builds that must place several batches: the tree grown from the first 200 items
+        // receives the rest batch by batch, onto many single-item children (buckets of 1-3 items), with item ids in
+        // the range of the fresh tree-node ids
+        "c14first" => {
+            p.default_cases = if q { 20 } else { 200 };
+            p.dims = Range(2, 3);
+            p.poll_limit = Some(if q { 3_000_000 } else { 20_000_000 });
+            p.n_indexes = Const(1);
+            p.index_sets = vec![(1, vec![0])];
+            p.p_random_indexes = 0.0;
+            p.id_styles = vec![(1, IdStyle::Dense)];
+            p.dense_span_factor = 1.0;
+            // the first batch holds the 200 smallest ids: single-item children numbered like the fresh tree nodes
+            p.dense_offset = 170;
+            p.families = vec![(1, Family::Generic)];
+            p.first_ops = OpMix { add: 1, overwrite: 0, append_ok: 0, append_bad: 0, del_present: 0, del_absent: 0, clear: 0, wrong_dim: 0 };
+            p.malformed_rate = 0.0;
+            p.p_cap_boundary = 0.0;
+            p.p_wipe_round = 0.0;
+            p.first_items = Range(420, 720);
+            p.rounds = Const(1);
+            p.ntrees = vec![(3, Some(Const(1))), (1, Some(Const(2)))];
+            p.split = vec![(2, Some(Const(1))), (1, Some(Range(2, 3)))];
+            p.mem = vec![(1, MemChoice::Zero), (1, MemChoice::Page)];
+            p.p_skip_build = 0.0;
+            p.p_commit_before_build = 0.0;
+            p.after_round = AfterRound { keep: 0, commit: 1, abort: 0 };
+            p.read_rate = 0.0;
+            p.probes = 0;
+            p.queries = Range(1, 2);
+            p.p_exhaustive = 1.0;
         }
         // the memory hint on INCREMENTAL builds: build, shrink (id holes below the surviving nodes), rebuild,
         // grow by several memory-limited batches (>= 200 items each), rebuild; small buckets, so that
